@@ -308,12 +308,12 @@ def jobs(tier, seed):
                     'part': i, 'parts': N_TRIPLES[tier]})
     for pair in range(N_PB1[tier]):
         for role in ((0,) if tier == 'quick' else (0, 1)):
-            for part in range(4):
-                out.append({'name': f'pb1-{pair}-{role}-{part}', 'what': 'pb1', 'role': role, 'part': part, 'parts': 4,
+            for part in range(8):
+                out.append({'name': f'pb1-{pair}-{role}-{part}', 'what': 'pb1', 'role': role, 'part': part, 'parts': 8,
                             'seed': runner.derive_seed(seed, ID, 'pb1', pair)})
     for pair in range(N_RV[tier]):
-        for part in range(4):
-            out.append({'name': f'rv-{pair}-{part}', 'what': 'rv', 'part': part, 'parts': 4,
+        for part in range(16):
+            out.append({'name': f'rv-{pair}-{part}', 'what': 'rv', 'part': part, 'parts': 16,
                         'occs': [1, 2] if tier == 'quick' else [1, 2, 3],
                         'seed': runner.derive_seed(seed, ID, 'pb1', pair)})
     nsh = 16
